@@ -1,8 +1,8 @@
 #!/bin/bash
-# tools/run_all.sh [tier] : run every registered check on /repo, refresh evidence, report exit codes
+# [IDS="C01 C02"] tools/run_all.sh [tier] : run every registered check on /repo, refresh evidence, report exit codes
 cd /verif
 tier=${1:-quick}
-for id in $(grep -v '^#' ready.txt); do
+for id in ${IDS:-$(grep -v '^#' ready.txt)}; do
   s=$(date +%s)
   out=$(timeout 7200 ./check $id --tier $tier 2>&1); rc=$?
   e=$(date +%s)
